@@ -2,6 +2,7 @@
    `hom_program_bgv_levelled` (programs `LProg` over negate / add / sub / multiply / multiply_plain / mod_switch_to_next along a chain). -/
 import Heathcliff.Proofs.C02PH
 import Heathcliff.Proofs.C02PM
+import Heathcliff.Proofs.C02PR
 namespace HC
 open Finset
 
@@ -140,43 +141,46 @@ def LProg.shadow (n : Nat) (M PL : Nat → Nat → Int) : LProg → Nat → Int
   | .mul p q => negMulR n (p.shadow n M PL) (q.shadow n M PL)
   | .mulPlain p k => negMulR n (p.shadow n M PL) (PL k)
   | .modSwitch p => p.shadow n M PL
+  | .relin p => p.shadow n M PL
 
 theorem c02p_err_ne_ok {α : Type} {e : Err} {x : α} (h : (Except.error e : R α) = .ok x) : False := by cases h
 
 /-- THE INDUCTION for levelled programs -/
 theorem c02p_lprog_inv {chain : Nat → Level} {top : Nat} (hch : c02p_ChainOK chain top) {sk : Array Int}
     (hsk : sk.size = (chain top).n) {S : Nat} (hS : ∑ k ∈ range (chain top).n, (c02p_sk sk k).natAbs ≤ S)
+    (kl : KeyLevel) (rk : KSKey) (e : Nat → Nat → Int) (G : Nat → Int) (A Be : Nat)
     (cts : Nat → Nat × Ct) (pls : Nat → Nat × RnsPoly) (M PL : Nat → Nat → Int) (inB : Nat → Nat × Nat × Nat × Nat)
     (plB : Nat → Nat × Nat) :
     ∀ (prog : LProg) (x : Nat × Ct),
+      (prog.usesRelin = true → ∀ c, c ≤ top → c02p_KeyLevelOf kl (chain c) ∧ c02p_RelinOK kl (chain c).size rk (c02p_sk sk) e G A Be) →
       (∀ i ∈ prog.ctInputs, (cts i).1 ≤ top ∧ c02p_Enc (chain (cts i).1) sk (cts i).2 (M i) (inB i).2.2.2 ∧
         inB i = ((cts i).1, (cts i).2.cf, (cts i).2.polys.size, (inB i).2.2.2)) →
       (∀ k ∈ prog.plInputs, RnsCanon (chain (pls k).1) (pls k).2 ∧ c02p_PlainLift (chain (pls k).1) (pls k).2 (PL k) ∧
         (∀ j, j < (chain top).n → (PL k j).natAbs ≤ (plB k).2) ∧ (plB k).1 = (pls k).1) →
-      prog.eval chain cts pls = .ok x →
-      x.1 ≤ top ∧ ∃ V, prog.noiseUB chain S inB plB = some (x.1, x.2.cf, x.2.polys.size, V) ∧
+      prog.eval chain kl rk cts pls = .ok x →
+      x.1 ≤ top ∧ ∃ V, prog.noiseUB chain kl A Be S inB plB = some (x.1, x.2.cf, x.2.polys.size, V) ∧
         c02p_Enc (chain x.1) sk x.2 (prog.shadow (chain top).n M PL) V := by
   intro prog
   induction prog with
   | inp i =>
-    intro x hin _ hev
+    intro x _ hin _ hev
     have hx : cts i = x := Except.ok.inj hev
     subst hx
     obtain ⟨hle, he, hb⟩ := hin i (by simp [LProg.ctInputs])
     exact ⟨hle, (inB i).2.2.2, by rw [LProg.noiseUB]; exact congrArg some hb, he⟩
   | neg p ih =>
-    intro x hin hpl hev
+    intro x hrk hin hpl hev
     rw [LProg.eval] at hev
     obtain ⟨⟨la, a⟩, hea, hev1⟩ := c01p_bind_ok hev
     obtain ⟨r, hr, hev2⟩ := c01p_bind_ok hev1
     have hx : (la, r) = x := Except.ok.inj hev2
     subst hx
-    obtain ⟨hle, V, hub, ea⟩ := ih (la, a) hin hpl hea
+    obtain ⟨hle, V, hub, ea⟩ := ih (la, a) (fun hu => hrk (by simpa [LProg.usesRelin] using hu)) hin hpl hea
     have hL := hch.level la hle
     obtain ⟨hcf, hsz, er⟩ := c02p_step_neg hL (by rw [hch.n hle]; exact hsk) ea hr
     exact ⟨hle, V, by rw [LProg.noiseUB, hub]; simp only [hcf, hsz], er⟩
   | add p q ihp ihq =>
-    intro x hin hpl hev
+    intro x hrk hin hpl hev
     rw [LProg.eval] at hev
     obtain ⟨⟨la, a⟩, hea, hev1⟩ := c01p_bind_ok hev
     obtain ⟨⟨lb, b⟩, heb, hev2⟩ := c01p_bind_ok hev1
@@ -189,9 +193,9 @@ theorem c02p_lprog_inv {chain : Nat → Level} {top : Nat} (hch : c02p_ChainOK c
       obtain ⟨r, hr, hev3⟩ := c01p_bind_ok hev2
       have hx : (la, r) = x := Except.ok.inj hev3
       subst hx
-      obtain ⟨hle, Va, huba, ea⟩ := ihp (la, a) (fun i hi => hin i (by simp [LProg.ctInputs, hi]))
+      obtain ⟨hle, Va, huba, ea⟩ := ihp (la, a) (fun hu => hrk (by simp [LProg.usesRelin, hu])) (fun i hi => hin i (by simp [LProg.ctInputs, hi]))
         (fun k hk => hpl k (by simp [LProg.plInputs, hk])) hea
-      obtain ⟨_, Vb, hubb, eb⟩ := ihq (la, b) (fun i hi => hin i (by simp [LProg.ctInputs, hi]))
+      obtain ⟨_, Vb, hubb, eb⟩ := ihq (la, b) (fun hu => hrk (by simp [LProg.usesRelin, hu])) (fun i hi => hin i (by simp [LProg.ctInputs, hi]))
         (fun k hk => hpl k (by simp [LProg.plInputs, hk])) heb
       have hL := hch.level la hle
       obtain ⟨e1, e2, hbal, hsz, hE⟩ := c02p_step_tr2 hL (by rw [hch.n hle]; exact hsk) ea eb false hr
@@ -202,7 +206,7 @@ theorem c02p_lprog_inv {chain : Nat → Level} {top : Nat} (hch : c02p_ChainOK c
           simpa using hE
         exact hE'
   | sub p q ihp ihq =>
-    intro x hin hpl hev
+    intro x hrk hin hpl hev
     rw [LProg.eval] at hev
     obtain ⟨⟨la, a⟩, hea, hev1⟩ := c01p_bind_ok hev
     obtain ⟨⟨lb, b⟩, heb, hev2⟩ := c01p_bind_ok hev1
@@ -215,9 +219,9 @@ theorem c02p_lprog_inv {chain : Nat → Level} {top : Nat} (hch : c02p_ChainOK c
       obtain ⟨r, hr, hev3⟩ := c01p_bind_ok hev2
       have hx : (la, r) = x := Except.ok.inj hev3
       subst hx
-      obtain ⟨hle, Va, huba, ea⟩ := ihp (la, a) (fun i hi => hin i (by simp [LProg.ctInputs, hi]))
+      obtain ⟨hle, Va, huba, ea⟩ := ihp (la, a) (fun hu => hrk (by simp [LProg.usesRelin, hu])) (fun i hi => hin i (by simp [LProg.ctInputs, hi]))
         (fun k hk => hpl k (by simp [LProg.plInputs, hk])) hea
-      obtain ⟨_, Vb, hubb, eb⟩ := ihq (la, b) (fun i hi => hin i (by simp [LProg.ctInputs, hi]))
+      obtain ⟨_, Vb, hubb, eb⟩ := ihq (la, b) (fun hu => hrk (by simp [LProg.usesRelin, hu])) (fun i hi => hin i (by simp [LProg.ctInputs, hi]))
         (fun k hk => hpl k (by simp [LProg.plInputs, hk])) heb
       have hL := hch.level la hle
       obtain ⟨e1, e2, hbal, hsz, hE⟩ := c02p_step_tr2 hL (by rw [hch.n hle]; exact hsk) ea eb true hr
@@ -228,7 +232,7 @@ theorem c02p_lprog_inv {chain : Nat → Level} {top : Nat} (hch : c02p_ChainOK c
           simpa using hE
         exact hE'
   | mul p q ihp ihq =>
-    intro x hin hpl hev
+    intro x hrk hin hpl hev
     rw [LProg.eval] at hev
     obtain ⟨⟨la, a⟩, hea, hev1⟩ := c01p_bind_ok hev
     obtain ⟨⟨lb, b⟩, heb, hev2⟩ := c01p_bind_ok hev1
@@ -241,9 +245,9 @@ theorem c02p_lprog_inv {chain : Nat → Level} {top : Nat} (hch : c02p_ChainOK c
       obtain ⟨r, hr, hev3⟩ := c01p_bind_ok hev2
       have hx : (la, r) = x := Except.ok.inj hev3
       subst hx
-      obtain ⟨hle, Va, huba, ea⟩ := ihp (la, a) (fun i hi => hin i (by simp [LProg.ctInputs, hi]))
+      obtain ⟨hle, Va, huba, ea⟩ := ihp (la, a) (fun hu => hrk (by simp [LProg.usesRelin, hu])) (fun i hi => hin i (by simp [LProg.ctInputs, hi]))
         (fun k hk => hpl k (by simp [LProg.plInputs, hk])) hea
-      obtain ⟨_, Vb, hubb, eb⟩ := ihq (la, b) (fun i hi => hin i (by simp [LProg.ctInputs, hi]))
+      obtain ⟨_, Vb, hubb, eb⟩ := ihq (la, b) (fun hu => hrk (by simp [LProg.usesRelin, hu])) (fun i hi => hin i (by simp [LProg.ctInputs, hi]))
         (fun k hk => hpl k (by simp [LProg.plInputs, hk])) heb
       have hL := hch.level la hle
       obtain ⟨hcf, hsz, hE⟩ := c02p_step_mul hL (by rw [hch.n hle]; exact hsk) ea eb hr
@@ -254,7 +258,7 @@ theorem c02p_lprog_inv {chain : Nat → Level} {top : Nat} (hch : c02p_ChainOK c
         rw [e] at hE
         exact hE
   | mulPlain p k ih =>
-    intro x hin hpl hev
+    intro x hrk hin hpl hev
     rw [LProg.eval] at hev
     obtain ⟨⟨la, a⟩, hea, hev1⟩ := c01p_bind_ok hev
     obtain ⟨hpc, hpL, hpB, hpl1⟩ := hpl k (by simp [LProg.plInputs])
@@ -266,7 +270,7 @@ theorem c02p_lprog_inv {chain : Nat → Level} {top : Nat} (hch : c02p_ChainOK c
       obtain ⟨r, hr, hev3⟩ := c01p_bind_ok hev1
       have hx : (la, r) = x := Except.ok.inj hev3
       subst hx
-      obtain ⟨hle, Va, huba, ea⟩ := ih (la, a) hin (fun k' hk => hpl k' (by simp [LProg.plInputs, hk])) hea
+      obtain ⟨hle, Va, huba, ea⟩ := ih (la, a) (fun hu => hrk (by simpa [LProg.usesRelin] using hu)) hin (fun k' hk => hpl k' (by simp [LProg.plInputs, hk])) hea
       have hL := hch.level la hle
       rw [← hl'] at hpc hpL
       obtain ⟨hcf, hsz, hE⟩ := c02p_step_pl hL (by rw [hch.n hle]; exact hsk) ea hpc hpL
@@ -278,7 +282,7 @@ theorem c02p_lprog_inv {chain : Nat → Level} {top : Nat} (hch : c02p_ChainOK c
         rw [e] at hE
         exact hE
   | modSwitch p ih =>
-    intro x hin hpl hev
+    intro x hrk hin hpl hev
     rw [LProg.eval] at hev
     obtain ⟨⟨la, a⟩, hea, hev1⟩ := c01p_bind_ok hev
     by_cases hl : la = 0
@@ -288,7 +292,7 @@ theorem c02p_lprog_inv {chain : Nat → Level} {top : Nat} (hch : c02p_ChainOK c
       obtain ⟨r, hr, hev3⟩ := c01p_bind_ok hev1
       have hx : (la - 1, r) = x := Except.ok.inj hev3
       subst hx
-      obtain ⟨hle, Va, huba, ea⟩ := ih (la, a) hin hpl hea
+      obtain ⟨hle, Va, huba, ea⟩ := ih (la, a) (fun hu => hrk (by simpa [LProg.usesRelin] using hu)) hin hpl hea
       have hle' : la - 1 ≤ top := by omega
       have hnx : c02p_Next (chain la) (chain (la - 1)) := by
         have := hch.next (la - 1) (by omega)
@@ -298,26 +302,61 @@ theorem c02p_lprog_inv {chain : Nat → Level} {top : Nat} (hch : c02p_ChainOK c
       refine ⟨hle', _, ?_, hE⟩
       rw [LProg.noiseUB, huba]
       simp only [hl, if_false, hcf, hsz]
+  | relin p ih =>
+    intro x hrk hin hpl hev
+    rw [LProg.eval] at hev
+    obtain ⟨⟨la, a⟩, hea, hev1⟩ := c01p_bind_ok hev
+    by_cases hl : a.polys.size > 3
+    · simp only [hl, if_true] at hev1
+      exact (c02p_err_ne_ok hev1).elim
+    · simp only [hl, if_false] at hev1
+      obtain ⟨r, hr, hev3⟩ := c01p_bind_ok hev1
+      have hx : (la, r) = x := Except.ok.inj hev3
+      subst hx
+      obtain ⟨hle, Va, huba, ea⟩ := ih (la, a) (fun _ => hrk rfl) hin hpl hea
+      have h2 : 2 ≤ a.polys.size := ea.1.canon.two_le
+      by_cases h22 : a.polys.size = 2
+      · -- nothing to do: `relinearize` returns the ciphertext unchanged
+        have hr' : r = a := by
+          have e2 : relinearize kl .bgv (chain la).size (fun i => if i = 2 then some rk else none) 3 a = pure a := by
+            show (if a.polys.size < 2 then _ else if a.polys.size = 2 then pure a else _) = _
+            rw [if_neg (by omega), if_pos h22]
+          rw [e2] at hr
+          exact (Except.ok.inj hr).symm
+        subst hr'
+        refine ⟨hle, Va, ?_, ea⟩
+        rw [LProg.noiseUB, huba]
+        simp only [h22, if_true]
+      · have h3 : a.polys.size = 3 := by omega
+        obtain ⟨hko, hro⟩ := hrk rfl la hle
+        obtain ⟨hcf, hsz, hE⟩ := c02p_step_relin (hch.level la hle) hko (by rw [hch.n hle]; exact hsk) hro (S := S)
+          (by rw [hch.n hle]; exact hS) ea h3 (fun i => if i = 2 then some rk else none) (by simp) 1 hr
+        refine ⟨hle, _, ?_, hE⟩
+        rw [LProg.noiseUB, huba]
+        simp only [h3, hcf, hsz, ksNoise, KeyLevel.c04t_P]
+        simp
 
 /-! ## Property theorem -/
 
-/-- THE PROGRAM-LEVEL HOMOMORPHISM THEOREM (BGV, levelled): programs over negate / add / sub / multiply / multiply_plain AND
-    `mod_switch_to_next`, along any chain of constructor-built levels (`c02p_ChainOK`), for any secret with `‖s‖₁ ≤ S`.  If the model does
+/-- THE PROGRAM-LEVEL HOMOMORPHISM THEOREM (BGV, levelled): programs over negate / add / sub / multiply / multiply_plain, `mod_switch_to_next` AND
+    `relinearize` (size ≤ 3, key for s²), along any chain of constructor-built levels (`c02p_ChainOK`), for any secret with `‖s‖₁ ≤ S`.  If the model does
     not refuse the program and returns `(lv, r)`, and the a-priori bookkeeping returns the bound `V` with `2·V < Q_lv`, then decrypting `r`
     AT ITS LEVEL gives the shadow program's value modulo t. -/
 theorem hom_program_bgv_levelled {chain : Nat → Level} {top : Nat} (hch : c02p_ChainOK chain top) {sk : Array Int}
     (hsk : sk.size = (chain top).n) {S : Nat} (hS : ∑ k ∈ range (chain top).n, (c02p_sk sk k).natAbs ≤ S)
+    (kl : KeyLevel) (rk : KSKey) (e : Nat → Nat → Int) (G : Nat → Int) (A Be : Nat)
     (cts : Nat → Nat × Ct) (pls : Nat → Nat × RnsPoly) (M PL : Nat → Nat → Int) (inB : Nat → Nat × Nat × Nat × Nat)
     (plB : Nat → Nat × Nat) (prog : LProg) {lv : Nat} {r : Ct}
+    (hrk : prog.usesRelin = true → ∀ c, c ≤ top → c02p_KeyLevelOf kl (chain c) ∧ c02p_RelinOK kl (chain c).size rk (c02p_sk sk) e G A Be)
     (hin : ∀ i ∈ prog.ctInputs, (cts i).1 ≤ top ∧ c02p_Enc (chain (cts i).1) sk (cts i).2 (M i) (inB i).2.2.2 ∧
         inB i = ((cts i).1, (cts i).2.cf, (cts i).2.polys.size, (inB i).2.2.2))
     (hpl : ∀ k ∈ prog.plInputs, RnsCanon (chain (pls k).1) (pls k).2 ∧ c02p_PlainLift (chain (pls k).1) (pls k).2 (PL k) ∧
         (∀ j, j < (chain top).n → (PL k j).natAbs ≤ (plB k).2) ∧ (plB k).1 = (pls k).1)
-    (hev : prog.eval chain cts pls = .ok (lv, r)) {st : Nat × Nat × Nat} {V : Nat}
-    (hub : prog.noiseUB chain S inB plB = some (st.1, st.2.1, st.2.2, V)) (hV : 2 * V < (chain lv).tool.baseQ.prod) :
+    (hev : prog.eval chain kl rk cts pls = .ok (lv, r)) {st : Nat × Nat × Nat} {V : Nat}
+    (hub : prog.noiseUB chain kl A Be S inB plB = some (st.1, st.2.1, st.2.2, V)) (hV : 2 * V < (chain lv).tool.baseQ.prod) :
     bgvDecrypt (chain lv) sk r = .ok (Spec.trim (Array.ofFn (n := (chain lv).n) fun j =>
       Spec.imod (prog.shadow (chain top).n M PL j.val) (chain lv).t.value)) := by
-  obtain ⟨hle, V', hub', he⟩ := c02p_lprog_inv hch hsk hS cts pls M PL inB plB prog (lv, r) hin hpl hev
+  obtain ⟨hle, V', hub', he⟩ := c02p_lprog_inv hch hsk hS kl rk e G A Be cts pls M PL inB plB prog (lv, r) hrk hin hpl hev
   rw [hub] at hub'
   have hVV : V = V' := by
     injection hub' with h1
